@@ -1203,10 +1203,15 @@ rrul_fill_mly(echs_instant_t *restrict tgt, size_t nti, rrulsp_t rr)
 	/* get m on track */
 	if (UNLIKELY(bui31_has_bits_p(rr->mon))) {
 		bitint_iter_t bm = 0UL;
+		unsigned int g = rr->inter;
+		unsigned int mv;
 
-		/* check that some of the months are congruent m modulo inter */
-		while (bui31_next(&bm, rr->mon) &&
-		       ((m + 12U) - (bm - 1U)) % rr->inter);
+		/* check that some of the months can be reached from M
+		 * in steps of INTER, i.e. are congruent to M modulo
+		 * the gcd of INTER and the 12 months of a year */
+		for (unsigned int t = 12U, r; t; r = g % t, g = t, t = r);
+		while ((mv = bui31_next(&bm, rr->mon), bm) &&
+		       (((unsigned int)m + 12U) - mv) % g);
 		if (UNLIKELY(!bm)) {
 			goto fin;
 		}
